@@ -5,7 +5,6 @@ package pqengine
 import (
 	"bytes"
 	"fmt"
-	"os"
 	"sync"
 
 	txfile "github.com/elastic/go-txfile"
@@ -340,15 +339,7 @@ func (e *Engine) apply(op Op) string {
 			e.InEvent = false
 			e.ReadPos++
 		}
-		if os.Getenv("VERIF_DEBUG") != "" && e.ReadPos >= 27 && e.ReadPos <= 34 {
-			id, end, pg, off, eb := pq.VerifReaderState(e.R)
-			fmt.Printf("  before Next: model readpos=%d visible=%d | reader id=%d end=%d page=%d off=%d eb=%d\n", e.ReadPos, e.VisibleEnd, id, end, pg, off, eb)
-		}
 		sz, err := e.R.Next()
-		if os.Getenv("VERIF_DEBUG") != "" && e.ReadPos >= 27 && e.ReadPos <= 34 {
-			id, end, pg, off, eb := pq.VerifReaderState(e.R)
-			fmt.Printf("  after  Next: sz=%d | reader id=%d end=%d page=%d off=%d eb=%d\n", sz, id, end, pg, off, eb)
-		}
 		if err != nil {
 			e.fail("Reader.Next failed: %v", err)
 			return pqKind(err)
